@@ -64,6 +64,10 @@ def payload(rng, typ, total, variant):
 
 def gen(ctx):
     rng = ctx.rng
+    # several threads decoding at the same time (each its own buffer): the decoder shares nothing between threads
+    for _ in range(200 if ctx.thorough else 20):
+        k = rng.choice([2, 2, 3, 4, 8])
+        yield Case("DECPAR", " ".join(W.hx(W.rand_valid(rng)[1]) for _ in range(k)), tags=("concurrent-decode",))
     # a well-formed message at the head of a buffer around and beyond 64 KiB (length arithmetic must not be done in 16 bits)
     import struct as _st
     for msg in (W.enc_ready(7), W.enc_measure(3, 9, [1, 2, 3]), W.enc_create(1, 2, 3, 4, 5, 6, 7, b"reno"),
@@ -131,6 +135,6 @@ def nontrivial(c, r):
 
 
 def oracle(c, impl_res):
-    if c.cmd == "DECS" and "bigbuf" in c.tags:
+    if c.cmd == "DECPAR" or (c.cmd == "DECS" and "bigbuf" in c.tags):
         return None  # the oracle's answer parser is for single results; these streams are decided by the correspondence with the model
     return ("ORC", "C04 %s %s" % (c.args, impl_res))
